@@ -1486,7 +1486,14 @@ class TeX(object):
                 return dimen(sign * dimen(t))
             self.pushToken(t)
             break
-        num = dimen(sign * self.readDecimal() * self.readUnitOfMeasure(units=units))
+        value = sign * self.readDecimal()
+        unit = self.readUnitOfMeasure(units=units)
+        if abs(unit) >= 2e9:
+            # fil, fill and filll are encoded as an offset (see dimen), so
+            # the coefficient must not be applied by multiplication
+            num = dimen('%r%s' % (value, 'fil' + 'l' * (int(abs(unit) // 2e9) - 1)))
+        else:
+            num = dimen(value * unit)
         ParameterCommand.enable()
         return num
 
